@@ -105,6 +105,12 @@ _count = [0]
 
 
 def body(cfg, ctx):
+    if cfg['route'].get('url') and not cfg['route'].get('methods'):
+        # deterministic in the case: every second configuration with URL bindings gets a skipped look-alike route in front
+        import json as _json
+        if len(_json.dumps(cfg, sort_keys=True)) % 2 == 0:
+            cfg = dict(cfg, decoy=True)
+            ctx.event('with-skipped-lookalike-route')
     try:
         plan = I.predict(cfg)
     except I.Reject:
